@@ -14,6 +14,8 @@ HARNESS = {
     "C06": "c06",
     "C07": "c07_c08",
     "C08": "c07_c08",
+    "C09": "c09_c10",
+    "C10": "c09_c10",
 }
 
 
